@@ -651,6 +651,35 @@ impl Sweep for Vm {
                 }
             }
         }
+        // Integer literals written with the % suffix: in range they are that Integer, out of range they are refused
+        if shard == 0 {
+            for (text, v) in [("32767%", 32767i64), ("0%", 0), ("255%", 255), ("32768%", 32768), ("40000%", 40000), ("65535%", 65535), ("65536%", 65536), ("99999%", 99999), ("123456789%", 123456789)] {
+                for (neg, line) in [(false, format!("PRINT {}", text)), (true, format!("A%=-{}:PRINT A%", text)), (false, format!("A%={}:PRINT A%", text))] {
+                    let val = if neg { -v } else { v };
+                    if val >= -32768 && val <= 32767 && v <= 32767 {
+                        self.judge(&line, "suffixed-literal", fit(val), ctx);
+                        continue;
+                    }
+                    if !ctx.begin(&line) {
+                        continue;
+                    }
+                    let res = guard(|| {
+                        let mut s = Session::new();
+                        s.enter(&line);
+                        s.take()
+                    });
+                    ctx.nontrivial(hash64(&("vm", "suffixed-literal-out-of-range", text)));
+                    match res {
+                        Err(p) => ctx.violation("suffixed-literal/panic", p),
+                        Ok(ev) => {
+                            if !ev.iter().any(|e| matches!(e, Ev::Err(_))) {
+                                ctx.violation("suffixed-literal/out-of-range-literal-accepted", format!("{} : gave {:?}", line, crate::driver::render(&ev)));
+                            }
+                        }
+                    }
+                }
+            }
+        }
         // float to Integer by assignment
         if shard == 0 {
             for (text, v) in [
